@@ -806,7 +806,7 @@ theorem htrepr_cache (s : HostTState I) (L : List Route) (limit level : Nat) (h 
     HTRepr T Good IL (HostT.cache T I limit level s).1 L ∧ (HostT.cache T I limit level s).2 ≤ limit := by
   obtain ⟨t1, n1, h1, hs, hn1⟩ := treeCache_spec T.engine s.tree limit (some level)
   have hc : t1.contents = s.tree.contents := by rw [← contents_strip, hs, contents_strip]
-  have hi : t1.inv T.icHost = true := by rw [← inv_strip, hs, inv_strip]; exact h.inv
+  have hi : t1.inv T.icHost = true := by rw [inv_of_treeCache h1 T.icHost]; exact h.inv
   unfold HostT.cache
   simp only [h1, Option.getD_some]
   have hst := cacheAll_spec IL level s.statics n1
